@@ -303,3 +303,20 @@ func Restore() {
 		(&copier{ptrs: map[uintptr]reflect.Value{}}).deepCopy(dst, snapshot[i])
 	}
 }
+
+// SortedMap returns the entries of a map sorted by the printed key: the instrumented build iterates
+// maps in this one canonical order (Go's randomised order is not explored).
+func SortedMap(m interface{}) []KV {
+	v := reflect.ValueOf(m)
+	if v.Kind() != reflect.Map {
+		return nil
+	}
+	out := make([]KV, 0, v.Len())
+	it := v.MapRange()
+	for it.Next() {
+		out = append(out, KV{it.Key().Interface(), it.Value().Interface()})
+	}
+	sort.Slice(out, func(i, j int) bool { return fmt.Sprint(out[i].K) < fmt.Sprint(out[j].K) })
+	charge(int64(len(out)))
+	return out
+}
